@@ -943,7 +943,8 @@ def main(run):
             d = describe(roots)
             steps.append("S_ %s %s" % (cop(op), cdesc(d)))
         case["ops"] = ops_log
-        terms.append("CRun %s [%s] [%s]" % ("[%s]" % ";\n  ".join(cobj(o) for o in h0[0]),
+        terms.append("CRun %s %s [%s] [%s]" % ("false" if "fitness-attr" in setup else "true",
+                                                "[%s]" % ";\n  ".join(cobj(o) for o in h0[0]),
                                              ";".join(cval(v) for v in h0[1]), ";\n ".join(steps)))
         cases.append(case)
         run.note_case(case, nontrivial, sample=case if idx % 41 == 0 else None)
